@@ -40,14 +40,16 @@ SCN = {
     'ring_resize': (4, 'ThreadPool(1): ring fast path (1 task), resize(2) drains it and grows the arenas; ring fast path '
                        'over both rings (2 tasks); optional waiter steal (tryExecuteNextFromRings, symbolic start ring); '
                        'the destructor drains the rings'),
+    'ring_dtor': (5, 'ThreadPool(2): fork-join ring fast path (scheduleBulkToRings, 2 tasks: task i in ring i); optional '
+                     'waiter steal (tryExecuteNextFromRings from ring 1); no other consumer: the destructor drains the rings'),
 }
 
 
-def inst(kind, n, tiers, name=None, asleep=9, via_taskset=0, steal=0, unwind_fn=None, loops=None, mq=2, timeout=1500):
+def inst(kind, n, tiers, name=None, asleep=9, via_taskset=0, steal=0, unwind_fn=None, loops=None, mq=2, timeout=1500, fs=4096):
     scn, text = SCN[kind]
     defs = {'VF_N': n, 'VF_SCN': scn, 'VF_MQ_CAP': mq, 'VF_VIA_TASKSET': via_taskset, 'VF_STEAL': steal,
             'VF_ASLEEP': asleep}
-    return {
+    r = {
         'name': name or '%s_n%d' % (kind, n), 'src': 'once.cpp', 'engine': 'cbmc', 'shims': ['moodycamel'],
         'repo_sources': _SRC, 'rt_defs': {'VF_HAVE_THREAD_MODEL': 1}, 'models': ['aligned_alloc'],
         'defs': defs,
@@ -55,20 +57,26 @@ def inst(kind, n, tiers, name=None, asleep=9, via_taskset=0, steal=0, unwind_fn=
                    '-DDISPENSO_TUNE_SPIN_CHECK_INTERVAL=1', '-DDISPENSO_TUNE_QUEUE_CHECK_INTERVAL=1',
                    '-DDISPENSO_DISABLE_CASCADE_WAKERANGE'],
         'unwind': 3, 'nthreads': 1, 'spin_loops': True, 'unwindset': dict({_R16: 17, _R4: 5}, **(loops or {})),
-        'unwind_fn': unwind_fn or {}, 'fs_array': 4096,
+        'unwind_fn': unwind_fn or {},
         'checks': ['--no-standard-checks', '--div-by-zero-check', '--bounds-check'],
         'timeout': timeout, 'tiers': tiers,
         'bounds': ('model queue capacity %d, steal-ring capacity 4; history: %s%s; then the real ~ThreadPool; per-id ledger: '
                    'never run twice, exactly once after the destructor') % (
                        mq, text, ' (ring fast path entered through the real TaskSet::scheduleBulk)' if via_taskset else ''),
     }
+    if fs:
+        # byte arrays (arena blocks holding the rings) up to this size are split into per-element SSA symbols, so that
+        # ring indices / sequence numbers read back from them stay constants during symbolic execution
+        r['fs_array'] = fs
+    return r
 
 
 INSTANCES = [
-    inst('central', 0, ['quick', 'thorough']),
-    inst('worker', 1, ['quick', 'thorough'], loops={_LOOP + '.2': 4, _LOOP + '.3': 4}),
-    inst('overflow', 1, ['quick', 'thorough'], loops={_DTOR + '.9': 17}),
-    inst('ring_resize', 1, ['quick', 'thorough']),
-    inst('overflow', 1, ['thorough'], name='overflow_ts_n1', via_taskset=1, unwind_fn={_DTOR: 18}, timeout=2700),
-    inst('ring_resize', 1, ['thorough'], name='ring_resize_steal_ts_n1', via_taskset=1, steal=1, timeout=2700),
+    inst('central', 0, ['quick', 'thorough'], fs=None),
+    inst('worker', 1, ['quick', 'thorough'], asleep=1, loops={_LOOP + '.2': 4, _LOOP + '.3': 4}),
+    inst('overflow', 1, ['quick', 'thorough'], asleep=1, loops={_DTOR + '.9': 17}),
+    inst('ring_dtor', 2, ['quick', 'thorough'], fs=16384),
+    inst('worker', 1, ['thorough'], name='worker_awake_n1', asleep=0, loops={_LOOP + '.2': 4, _LOOP + '.3': 4}),
+    inst('overflow', 1, ['thorough'], name='overflow_awake_n1', asleep=0, loops={_DTOR + '.9': 17}),
+    inst('ring_dtor', 2, ['thorough'], name='ring_dtor_steal_n2', steal=1, fs=16384),
 ]
